@@ -3,7 +3,7 @@
    S22|1 invertible.  The joint solve is stated block-wise.  Any field; c right-hand-side columns, so the same
    theorem covers the predictive mean (r = y - m) and the predictive covariance (r = S.t). *)
 From mathcomp Require Import all_ssreflect all_algebra.
-From TinyGP Require Import Theory.Gauss.
+From TinyGP Require Import Theory.Gauss Theory.GaussHistory.
 Set Implicit Arguments. Unset Strict Implicit. Unset Printing Implicit Defensive.
 Import GRing.Theory.
 Local Open Scope ring_scope.
@@ -45,3 +45,28 @@ Print Assumptions C13_sequential_eq_joint.
 Print Assumptions C13_sequential_quad.
 Print Assumptions C13_schur_det.
 Print Assumptions C13_conditioned_kernel.
+
+(* ---- histories of ANY length ----
+   A Gaussian process restricted to a finite universe of u points is (mu, Sigma) : gstate.  A conditioning step observes
+   y = E x + noise(N) through an arbitrary linear operator E (a selection of points in tinygp) and yields the posterior
+   `cond`.  Conditioning on a list of batches one after the other (`cond_seq`, a fold) gives the SAME posterior mean and
+   covariance as conditioning once on the stacked batch (stacked operators and data, block-diagonal noise), provided every
+   innovation covariance met along the way is invertible (`regular`); and the total log probability is the same: the
+   quadratic forms add up and the determinants multiply (symmetric Sigma and noise blocks). *)
+Theorem C13_history_eq_joint (F : fieldType) u (P : gstate F u) (bs : seq (batch F u)) :
+  regular P bs -> cond_seq P bs = cond_b P (stack bs).
+Proof. exact: cond_history. Qed.
+Print Assumptions C13_history_eq_joint.
+
+Theorem C13_history_logp (F : fieldType) u (P : gstate F u) (bs : seq (batch F u)) :
+  P.2^T = P.2 -> all_symb bs -> regular P bs ->
+  quad_seq P bs = quad P (stack bs) /\ det_seq P bs = \det (innov_b P (stack bs)).
+Proof. exact: logp_history. Qed.
+Print Assumptions C13_history_logp.
+
+(* the two-step case with the blocks spelled out *)
+Theorem C13_two_steps (F : fieldType) u n1 n2 (P : gstate F u)
+    (E1 : 'M[F]_(n1, u)) (y1 : 'cV[F]_n1) (N1 : 'M[F]_n1) (E2 : 'M[F]_(n2, u)) (y2 : 'cV[F]_n2) (N2 : 'M[F]_n2) :
+  innov P E1 N1 \in unitmx -> innov (cond P E1 y1 N1) E2 N2 \in unitmx ->
+  cond (cond P E1 y1 N1) E2 y2 N2 = cond P (col_mx E1 E2) (col_mx y1 y2) (block_mx N1 0 0 N2).
+Proof. exact: cond_two_steps. Qed.
